@@ -244,7 +244,16 @@ def run(ctx):
                     elif op == "add_to_group":
                         v.add_to_group("g")
                     elif op == "move":
-                        v.move(10.0, 0.0, 0.0)
+                        # `.move()` moves whole branches; on a view holding only part of a branch it refuses (F54),
+                        # which changes nothing and is not a violation; a refusal on whole branches would be
+                        gb = before["global_branch_index"].to_numpy()
+                        touched = {int(gb[r]) for r in rows}
+                        whole = all(int(gb[r]) not in touched or r in rows for r in range(n))
+                        try:
+                            v.move(10.0, 0.0, 0.0)
+                        except ValueError:
+                            if whole:
+                                raise
                 evals += 1
                 after = m.nodes
                 changed = set()
